@@ -1070,6 +1070,11 @@ pub fn parent(tier: &str) -> i32 {
         }
     }
     if !thorough {
+        // consumer groups need a stream and a group before anything happens: depth 2, redis.call only (the executor
+        // dropping XCLAIM's FORCE / JUSTID showed only behind XADD + XGROUP CREATE, i.e. in the thorough tier)
+        for part in 0..32u64 {
+            tasks.push(json!({"kind": "diff", "spec": "c16-core", "depth": 2, "part": part, "parts": 32, "forms": ["call"], "thorough": thorough}));
+        }
         // redis.pcall on the empty dataset for every alphabet in the quick tier
         for spec in specs.iter() {
             tasks.push(json!({"kind": "diff", "spec": spec, "depth": 0, "part": 0, "parts": 1, "forms": ["pcall"], "thorough": thorough}));
